@@ -42,9 +42,12 @@ type statSvc struct{}
 func (s *statSvc) SetChannel(pushers.Channel) {}
 func (s *statSvc) Handle(ctx context.Context, conn net.Conn) error {
 	defer conn.Close()
+	// live heap: collect first, so that a service that allocates and drops buffers at a steady rate (vnc pushing
+	// frames to a connected client) does not look like growth between two collections
+	runtime.GC()
 	var m runtime.MemStats
 	runtime.ReadMemStats(&m)
-	fmt.Fprintf(conn, "heap=%d g=%d\n", m.HeapInuse, runtime.NumGoroutine())
+	fmt.Fprintf(conn, "heap=%d g=%d\n", m.HeapAlloc, runtime.NumGoroutine())
 	return nil
 }
 
